@@ -29,6 +29,35 @@ def opJson : FsOp → Json
   | .close p => jStrs ["close", p]
   | .replace s t => jStrs ["replace", s, t]
 
+def parseBOp (j : Json) : Except String BOp := do
+  let a ← strList j
+  match a with
+  | ["open", p] => pure (.openTrunc p)
+  | ["write", p, c] => pure (.write p c)
+  | ["flush", p] => pure (.flush p)
+  | ["close", p] => pure (.close p)
+  | ["replace", s, t] => pure (.replace s t)
+  | ["remove", p] => pure (.remove p)
+  | _ => throw "bad-op"
+
+/-- which of the modelled protocol shapes a recorded trace is (for its own temporary name and chunks) -/
+def shapeOf (ops : List BOp) (file : String) : String :=
+  let chunks := ops.filterMap fun o => match o with
+    | .write _ c => some c
+    | _ => none
+  match ops.head? with
+  | some (.openTrunc tmp) =>
+    if tmp != file && ops == protocolB tmp file chunks then "tmp_close_replace"
+    else if tmp != file && ops == protocolReplaceBeforeClose tmp file chunks then "replace_before_close"
+    else if ops == protocolInPlaceB file chunks then "in_place"
+    else if tmpThenReplace ops tmp file then "tmp_only_then_replace"
+    else "other"
+  | _ => "other"
+
+def dirJson (d : Dir) : Json :=
+  let sorted := (d.toArray.qsort (fun a b => a.1 < b.1)).toList
+  jArr (sorted.map fun (n, v) => jStrs [n, v])
+
 def pairList (j : Json) : Except String (List (String × String)) := do
   let a ← asArr j
   a.toList.mapM fun e => do
@@ -47,6 +76,7 @@ def parseSessOp (j : Json) : Except String (Op Float) := do
     pure (.eval e sc)
   | "rename" => pure (.rename (← getStr j "name"))
   | "reset" => pure .reset
+  | "boot" => pure (.bootEval (← parseEval j))
   | _ => throw "bad-op"
 
 /-- the files sorted by model name (the harness sorts the directory listing the same way) -/
@@ -83,6 +113,17 @@ def handle (j : Json) : Except String Json := do
       | .ok v => do pure (some (← pairList v))
       | .error _ => throw "bad-op"
     pure (Json.mkObj [("inits", jPairs (restart inits file))])
+  | "load" =>
+    -- `_load_saved_iteration` on arbitrary text lines (a line without '=' raises IndexError in the code),
+    -- then `change_init_values`
+    let inits ← pairList (← j.getObjVal? "inits")
+    let lines ← strList (← j.getObjVal? "lines")
+    let parsed := lines.map fun l => parseLine l.toList
+    if parsed.any Option.isNone then
+      pure (Json.mkObj [("error", jStr "IndexError")])
+    else
+      let entries := parsed.filterMap fun o => o.map fun (n, v) => (String.ofList n, String.ofList v)
+      pure (Json.mkObj [("inits", jPairs (restart inits (some entries))), ("entries", jPairs entries)])
   | "protocol" =>
     let tmp ← getStr j "tmp"
     let file ← getStr j "file"
@@ -96,6 +137,27 @@ def handle (j : Json) : Except String Json := do
     let new ← getStr j "new"
     let states := (List.range (ops.length + 1)).map fun k => jOptStr ((crash d ops k).get file)
     pure (Json.mkObj [("safe", jBool (crashSafeB d ops file new)), ("states", jArr states)])
+  | "crashb" =>
+    let d ← pairList (← j.getObjVal? "dir")
+    let ops ← (← getArr j "ops").toList.mapM parseBOp
+    let file ← getStr j "file"
+    let new ← getStr j "new"
+    let disks := (List.range (ops.length + 1)).map fun k => dirJson (crashB d ops k)
+    let chunks := ops.filterMap fun o => match o with
+      | .write _ c => some c
+      | _ => none
+    pure (Json.mkObj [("unsafe", jArr ((unsafePoints d ops file new).map fun k => Json.num (JsonNumber.fromNat k))),
+                      ("disks", jArr disks), ("shape", jStr (shapeOf ops file)),
+                      ("content", jStr (concat chunks))])
+  | "world" =>
+    let names ← strList (← j.getObjVal? "objs")
+    let opsJ ← getArr j "ops"
+    let ops ← opsJ.toList.mapM fun o => do
+      let i ← getNat o "obj"
+      let op ← parseSessOp o
+      pure (i, op)
+    let w0 : World Float := ⟨names.map fun n => ⟨n, none⟩, []⟩
+    pure (Json.mkObj [("files", jArr ((wtrace geF w0 ops).map filesJson))])
   | "session" =>
     let name ← getStr j "name"
     let ops ← (← getArr j "ops").toList.mapM parseSessOp
